@@ -22,6 +22,14 @@
 (*   "StepT" step-2 slice, then lazily transposed                          *)
 (*   "TCol"  lazily transposed, then inner slice (a view of a tensor with  *)
 (*           a pending transposition)                                      *)
+(*   "TClone" the clone of a lazily transposed tensor (it keeps the pending *)
+(*           transposition but not the axes)                               *)
+(*   "TView" the full view (all-nil slice) of a lazily transposed tensor   *)
+(* Destination-only recipes (a tensor of the same SIZE but another shape,   *)
+(* which the library re-lays-out when it is given as reuse tensor):         *)
+(*   "Crev"  contiguous, shape reversed                                    *)
+(*   "Tpend" shape s as constructed, then lazily transposed (its logical   *)
+(*           shape is the reversal of s)                                   *)
 (***************************************************************************)
 EXTENDS Tensor
 
@@ -32,12 +40,13 @@ Nils(n) == [i \in 1..n |-> SlNil]
 LayoutOK(kind, s) ==
     LET r == Len(s)
     IN CASE kind \in {"C", "F", "Fconv"} -> TRUE
-         [] kind \in {"T", "FT"}  -> r >= 2 /\ Prod(s) > 1
+         [] kind \in {"T", "FT", "TClone", "TView"}  -> r >= 2 /\ Prod(s) > 1
          [] kind = "Tp"   -> r >= 3 /\ Prod(s) > 1
          [] kind = "Row"  -> r >= 1 /\ s[1] >= 2
          [] kind \in {"Col", "Step", "Mat", "FCol"} -> r >= 1 /\ s[r] >= 2
          [] kind \in {"ColT", "StepT"} -> r >= 2 /\ s[1] >= 2
          [] kind = "TCol" -> r >= 2 /\ s[r] >= 2
+         [] kind \in {"Crev", "Tpend"} -> r >= 2 /\ Rev(s) # s
          [] OTHER -> FALSE
 
 (* returns [ops, h, n]: the program, the handle of the operand, the number of handles it creates;
@@ -71,6 +80,10 @@ Recipe(kind, s, nh, et) ==
          [] kind = "TCol" -> [ops |-> <<Op("New", 0, <<Rev([s EXCEPT ![r] = @ + 1]), "C", et>>),
                                         Op("T", nh, <<>>),
                                         Op("Slice", nh, Nils(r - 1) \o <<SlRng(0, s[r], 1)>>)>>, h |-> nh + 1, n |-> 2]
+         [] kind = "TClone" -> [ops |-> <<Op("New", 0, <<Rev(s), "C", et>>), Op("T", nh, <<>>), Op("Clone", nh, <<>>)>>, h |-> nh + 1, n |-> 2]
+         [] kind = "TView" -> [ops |-> <<Op("New", 0, <<Rev(s), "C", et>>), Op("T", nh, <<>>), Op("Slice", nh, <<SlNil>>)>>, h |-> nh + 1, n |-> 2]
+         [] kind = "Crev" -> [ops |-> <<Op("New", 0, <<Rev(s), "C", et>>)>>, h |-> nh, n |-> 1]
+         [] kind = "Tpend" -> [ops |-> <<Op("New", 0, <<s, "C", et>>), Op("T", nh, <<>>)>>, h |-> nh, n |-> 1]
          [] kind = "Mat" -> [ops |-> <<Op("New", 0, <<[s EXCEPT ![r] = @ + 1], "C", et>>),
                                        Op("Slice", nh, Nils(r - 1) \o <<SlRng(0, s[r], 1)>>),
                                        Op("Materialize", nh + 1, <<>>)>>, h |-> nh + 2, n |-> 3]
